@@ -49,6 +49,7 @@ GUARDS = {
         'otherElemFieldIsRange',
     'other == 0': 'otherEqZero',
     'self.is_linear': 'selfIsLinear',
+    'isinstance(other, Real)': 'otherIsReal',
 }
 
 CLASSES = ['OperatorSum', 'OperatorVectorSum', 'OperatorComp', 'OperatorPointwiseProduct',
@@ -71,9 +72,15 @@ ARGS = {
 
 def _guard(node):
     s = _u(node)
-    if s not in GUARDS:
-        raise ExtractionError('unknown guard `{}`'.format(s))
-    return 'Guard.' + GUARDS[s]
+    if s in GUARDS:
+        return 'Guard.' + GUARDS[s]
+    if isinstance(node, ast.BoolOp) and isinstance(node.op, ast.And):
+        parts = [_guard(v) for v in node.values]
+        out = parts[-1]
+        for p in reversed(parts[:-1]):
+            out = '(Guard.and {} {})'.format(p, out)
+        return out
+    raise ExtractionError('unknown guard `{}`'.format(s))
 
 
 def _ret(node, cls, meth, env):
